@@ -552,6 +552,14 @@ func vfCtlStop() {
 	c.mu.Unlock()
 }
 
+var vfDebug = os.Getenv("VF_DEBUG") != ""
+
+func vfDbg(format string, a ...interface{}) {
+	if vfDebug {
+		fmt.Fprintf(os.Stderr, "[vfctl %s] "+format+"\n", append([]interface{}{time.Now().Format("05.000")}, a...)...)
+	}
+}
+
 func vfWatchdog(gen int) {
 	c := &vfCtl
 	for {
@@ -567,14 +575,15 @@ func vfWatchdog(gen int) {
 			case c.pos >= len(c.script):
 				c.active = false
 			case c.script[c.pos].Kind == "block" && c.script[c.pos].From == c.holder:
+				vfDbg("watchdog: g%d blocked at point %d (script says %d) -> g%d", c.holder, c.points[c.holder], c.script[c.pos].Points, c.script[c.pos].To)
 				c.holder = c.script[c.pos].To
 				c.pos++
 				c.progress = time.Now()
-			case c.script[c.pos].Kind == "exit" && c.script[c.pos].From == c.holder:
-				// the holder's vfExit has not been seen (still unwinding); give it more time
-				c.progress = time.Now()
+			case c.script[c.pos].Kind == "exit" && c.script[c.pos].From == c.holder && time.Since(c.progress) < 50*vfGrace:
+				// the holder's vfExit has not been seen yet (still unwinding, or asleep): give it more time
 			default:
-				c.diverged = fmt.Sprintf("holder g%d made no progress but the schedule expects %+v (entry %d)", c.holder, c.script[c.pos], c.pos)
+				c.diverged = fmt.Sprintf("holder g%d (at point %d) made no progress but the schedule expects %+v (entry %d)", c.holder, c.points[c.holder], c.script[c.pos], c.pos)
+				vfDbg("%s", c.diverged)
 				c.active = false
 			}
 			c.cond.Broadcast()
@@ -598,6 +607,7 @@ func vfAwaitToken(g int, atPoint bool) {
 			if atPoint && c.pos < len(c.script) {
 				e := c.script[c.pos]
 				if e.Kind == "preempt" && e.From == g && e.Points == c.points[g] {
+					vfDbg("preempt g%d at point %d -> g%d", g, c.points[g], e.To)
 					c.pos++
 					c.holder = e.To
 					c.progress = time.Now()
@@ -664,6 +674,7 @@ func vfExit(g int) {
 	if c.active && c.holder == g && c.pos < len(c.script) {
 		e := c.script[c.pos]
 		if e.Kind == "exit" && e.From == g {
+			vfDbg("exit g%d at point %d (script %d) -> g%d", g, c.points[g], e.Points, e.To)
 			c.pos++
 			c.holder = e.To
 			c.progress = time.Now()
@@ -671,6 +682,27 @@ func vfExit(g int) {
 		}
 	}
 	c.mu.Unlock()
+}
+
+// vfSleep: time.Sleep of instrumented code. The symbolic run switches to another goroutine whenever the sleeper
+// blocks; the script then holds a "block" entry for it, which is honoured at once instead of waiting for the watchdog.
+func vfSleep(d time.Duration) {
+	c := &vfCtl
+	if c.active && d > 0 {
+		c.mu.Lock()
+		if g, ok := vfMyG(); ok && c.active && c.holder == g && c.pos < len(c.script) {
+			e := c.script[c.pos]
+			if e.Kind == "block" && e.From == g {
+				vfDbg("sleep: g%d blocked at point %d (script %d) -> g%d", g, c.points[g], e.Points, e.To)
+				c.pos++
+				c.holder = e.To
+				c.progress = time.Now()
+				c.cond.Broadcast()
+			}
+		}
+		c.mu.Unlock()
+	}
+	time.Sleep(d)
 }
 
 func vfQuiesce() {
